@@ -1253,6 +1253,9 @@ class GroupBy:
         sq_sum = self._apply_gb_reduction("sum_squares", values=values, **kwargs)
         sum_sq = self.sum(values=values, **kwargs).to_numpy().astype(np.float64) ** 2
         count = self.count(values=values, **kwargs)
+        if isinstance(sq_sum, pl.DataFrame):
+            # a polars frame does not combine with a 2-D array
+            sum_sq = pl.DataFrame(sum_sq, schema=sq_sum.columns, orient="row")
         return (sq_sum - sum_sq / count) / (count - ddof)
 
     @groupby_method(_GB_REDUCTION_DOCSTRING, full_name="standard deviation")
@@ -1265,7 +1268,10 @@ class GroupBy:
         ddof: int = 1,
         observed_only: bool = True,
     ):
-        return GroupBy.var(**locals()) ** 0.5
+        var = GroupBy.var(**locals())
+        if isinstance(var, pl.DataFrame):
+            return var.select(pl.all().sqrt())
+        return var**0.5
 
     @groupby_method(_GB_REDUCTION_DOCSTRING)
     def first(
